@@ -154,6 +154,13 @@ type c23State struct {
 	candSince map[string]time.Duration // allocation id -> logical time at which the controller was first seen holding it as a leak candidate
 
 	bad []hbfs.Fail
+	// re-execution of order-sensitive sync steps (Go map iteration order inside the controller)
+	hist           []c23Ev
+	inInit         bool
+	sampling       bool // this instance is itself a re-execution
+	sampled        bool // the last event was judged by re-executions
+	orderDependent bool // ... and they did not all agree: the state is not expanded further
+	lastSig        string
 	vAllocs map[string]c23Alloc // store view after the last event (nil = not computed)
 	vBlocks map[string]casstore.Item
 	// outcome classes of the last event (for evidence)
@@ -198,9 +205,11 @@ func c23New(u *c23U) *c23State {
 	// the world starts fully observed
 	s.syncNodes()
 	s.deliver()
+	s.inInit = true
 	for _, e := range u.Init {
 		c23Apply(s, e)
 	}
+	s.inInit = false
 	return s
 }
 
@@ -433,7 +442,80 @@ func (s *c23State) advance(d time.Duration) {
 }
 
 // gcSync runs the real syncIPAM and checks everything it freed against the truth world.
+const c23Samples = 48
+
+// orderSensitive: two or more allocations of one handle are confirmed leaks or candidates past the grace period. The
+// controller walks its confirmedLeaks MAP and decides per allocation, looking at the flags of the
+// handle's other allocations, so the result of the step may depend on Go's map iteration order.
+func (s *c23State) orderSensitive() bool {
+	for _, m := range s.c.handleTracker.allocationsByHandle {
+		n := 0
+		for _, a := range m {
+			if a.confirmedLeak || (a.leakedAt != nil && time.Since(*a.leakedAt) > c23Grace) {
+				n++
+			}
+		}
+		if n >= 2 {
+			return true
+		}
+	}
+	return false
+}
+
+// gcSync runs one sync. Where the step is order-sensitive it is additionally re-executed c23Samples
+// times on fresh replays of the same history (sampling over map iteration order - the one part of this
+// check that is not exhaustive) and judged on the union of what the re-executions did.
 func (s *c23State) gcSync(full bool) {
+	if s.sampling || !s.orderSensitive() {
+		s.gcSyncOnce(full)
+		return
+	}
+	s.sampled = true
+	sigs := map[string]int{}
+	fails := map[string]hbfs.Fail{}
+	count := map[string]int{}
+	for i := 0; i < c23Samples; i++ {
+		t := c23New(s.u)
+		t.sampling = true
+		for _, e := range s.hist {
+			c23Apply(t, e)
+		}
+		nb := len(t.bad)
+		t.gcSyncOnce(full)
+		sigs[t.lastSig]++
+		seen := map[string]bool{}
+		for _, f := range t.bad[nb:] {
+			if !seen[f.Key] {
+				seen[f.Key] = true
+				fails[f.Key] = f
+				count[f.Key]++
+			}
+		}
+	}
+	nb := len(s.bad)
+	s.gcSyncOnce(full)
+	sigs[s.lastSig]++
+	if len(sigs) <= 1 {
+		return // every re-execution did exactly what this instance did
+	}
+	s.orderDependent = true
+	s.bad = s.bad[:nb]
+	var keys []string
+	for k := range fails {
+		keys = append(keys, k)
+	}
+	sort.Strings(keys)
+	for _, k := range keys {
+		f := fails[k]
+		if count[k] < c23Samples {
+			f.Key += ":depends-on-map-iteration-order"
+		}
+		f.Msg += fmt.Sprintf(" [in %d of %d re-executions of this sync on fresh replays of the same history; %d distinct outcomes of the step]", count[k], c23Samples, len(sigs))
+		s.bad = append(s.bad, f)
+	}
+}
+
+func (s *c23State) gcSyncOnce(full bool) {
 	bb := s.storeBlocks()
 	before := s.allocsOf(bb)
 	affBefore := c23Affinity(bb)
@@ -458,6 +540,7 @@ func (s *c23State) gcSync(full bool) {
 		freed = append(freed, before[id])
 	}
 	s.lastFreed = len(freed)
+	s.lastSig = fmt.Sprint(ids, affAfter)
 	for _, a := range freed {
 		kind := "pod"
 		if a.Type != "" {
@@ -617,6 +700,7 @@ func (s *c23State) isDual(p string) bool {
 func c23Apply(s *c23State, e c23Ev) {
 	s.lastFreed, s.lastBlocksReleased = 0, 0
 	s.vAllocs, s.vBlocks = nil, nil
+	s.sampled = false
 	switch e.Op {
 	case "podadd":
 		n := 1
@@ -668,6 +752,9 @@ func c23Apply(s *c23State, e c23Ev) {
 		panic("bad op " + e.Op)
 	}
 	s.checkBookkeeping()
+	if !s.inInit {
+		s.hist = append(s.hist, e)
+	}
 }
 
 func (s *c23State) tunnelExists(node string) bool {
@@ -681,6 +768,9 @@ func (s *c23State) tunnelExists(node string) bool {
 }
 
 func c23Enabled(s *c23State, depth int) []c23Ev {
+	if s.orderDependent {
+		return nil // the step that led here has several outcomes; successors would not be well defined
+	}
 	u := s.u
 	var evs []c23Ev
 	add := func(op, pod, node string) {
@@ -941,7 +1031,7 @@ func c23Key(s *c23State) string {
 	for _, l := range []*[]string{&dn, &cl, &eb, &nb, &kn, &tr} {
 		sort.Strings(*l)
 	}
-	fmt.Fprintf(&sb, "|dirty:%v|full:%v|leaks:%v|empty:%v|nbb:%v|kn:%v|trk:%v|bad=%d", dn, c.fullSyncRequired, cl, eb, nb, kn, tr, len(s.bad))
+	fmt.Fprintf(&sb, "|dirty:%v|full:%v|leaks:%v|empty:%v|nbb:%v|kn:%v|trk:%v|bad=%d|od=%v", dn, c.fullSyncRequired, cl, eb, nb, kn, tr, len(s.bad), s.orderDependent)
 	return sb.String()
 }
 
@@ -959,6 +1049,13 @@ func c23Spec(c *vk.Ctx, u *c23U, depth int, tree bool, workers int) *hbfs.Spec[*
 		Enabled:  c23Enabled,
 		Key:      c23Key,
 		Check: func(s *c23State, hist []c23Ev) []hbfs.Fail {
+			if s.sampled {
+				c.NotExhaustive(fmt.Sprintf("sync steps in which two or more allocations of one handle are confirmed leaks (or candidates past the grace period) are additionally re-executed %d times on fresh replays (sampling over Go map iteration order inside garbageCollectKnownLeaks); everything else is exhaustive", c23Samples))
+				c.Add("sync_steps_judged_by_reexecution", 1)
+				if s.orderDependent {
+					c.Add("sync_steps_with_order_dependent_outcome", 1)
+				}
+			}
 			if s.lastFreed > 0 {
 				c.Add("gc_steps_that_freed_addresses", 1)
 			}
@@ -1092,7 +1189,7 @@ func TestVerif_C23(t *testing.T) {
 		plan := []struct {
 			u    string
 			q, t int
-		}{{"leak", 6, 8}, {"leak0", 6, 8}, {"handle", 7, 9}, {"node", 7, 9}, {"node0", 6, 8}, {"blocks", 6, 8}}
+		}{{"leak", 6, 8}, {"leak0", 6, 8}, {"handle", 7, 9}, {"node", 6, 9}, {"node0", 6, 8}, {"blocks", 6, 8}}
 		for _, p := range plan {
 			hbfs.Explore(c, c23Spec(c, c23Universes[p.u], c.Pick(p.q, p.t), false, w))
 		}
